@@ -21,6 +21,36 @@ def _judge(run):
     return [], bool(nt)
 
 
-P = ScenarioProperty(PROP, {"levels": (1, 3), "cap": (7, 12)}, lambda sc: [C07Checker(sc)], _judge, quick=1600, thorough=30000, machine={})
-run_shard = P.run_shard
+P = ScenarioProperty(PROP, {"levels": (1, 3), "cap": (8, 12), "sprouty": True, "level_limit_min": 2, "root_lsc_kinds": ["DontStop", "DontStop", "DontStop", "MetaepochLimit", "Scripted"], "gsc_kinds": ["MetaepochLimit", "SingularProblemEvalLimitReached", "FitnessEvalLimitReached", "AllStopped", "NoActiveNonrootDemes", "Never", "Never", "Never"]}, lambda sc: [C07Checker(sc)], _judge, quick=1600, thorough=30000, machine={})
+# second profile: three levels, plateau / constant objectives (exact fitness ties between candidates of different
+# parents), small level limits that bind - the situation in which a filter can hand a candidate to the wrong parent
+P_TIES = ScenarioProperty(
+    PROP,
+    {
+        "levels": (3, 3),
+        "families": ["step", "step", "constant"],
+        "cap": (8, 12),
+        "sprouty": True,
+        "level_limit_min": 1,
+        "level_limit_max": 3,
+        "force_level_limit": True,
+        "generators": ["Scripted", "Scripted", "BestPerDeme", "NBC"],
+        "sprout_kinds": ["simple", "composed", "composed"],
+        "root_lsc_kinds": ["DontStop"],
+        "lsc_kinds": ["DontStop", "DontStop", "MetaepochLimit", "Scripted"],
+        "gsc_kinds": ["Never", "Never", "MetaepochLimit", "SingularProblemEvalLimitReached"],
+    },
+    lambda sc: [C07Checker(sc)],
+    _judge,
+    quick=800,
+    thorough=15000,
+)
+
+
+def run_shard(tier, seed, shard, nshards, tally, scale=1.0):
+    fs = P.run_shard(tier, seed, shard, nshards, tally, scale)
+    fs += P_TIES.run_shard(tier, seed, shard, nshards, tally, scale, salt=23)
+    return fs
+
+
 replay = P.replay
